@@ -216,33 +216,121 @@ func checkC13(c *Ctx) {
 	}
 
 	// Extends polarity
-	{
-		fl := NewFlow(p, ext)
-		ways := trueEdges(fl)
-		ok := len(ways) > 0
-		for _, w := range ways {
-			if !hasCmp(w, "==", func(k string) bool { return strings.HasPrefix(k, kBlockHash+"phi@") }, is(kBlockHash+"p2)")) {
-				ok = false
-			}
+	c13ExtendsWalk(c, ext)
+}
+
+// c13ExtendsWalk (C13.6): Extends answers true only under hash equality of the block the walk
+// arrived at and the target, and the walk steps to the block stored under the current block's
+// parent hash only while the target's view is below the current block's view. The walk may sit
+// in Extends or in a private helper of the package it delegates to; the look-up is Blockchain.Get
+// itself or a function parameter that Extends binds to the method value chain.Get.
+func c13ExtendsWalk(c *Ctx, ext *ssa.Function) {
+	p := c.P
+	get := p.Method("security/blockchain", "Blockchain", "Get")
+	// the function holding the walk: Extends, or the helper it calls whose body has the loop
+	var walker *ssa.Function
+	var via *ssa.Call // Extends' call of the walker (nil: the walk is in Extends)
+	isStep := func(fn *ssa.Function, in ssa.Instruction) bool {
+		call, ok := in.(*ssa.Call)
+		if !ok {
+			return false
 		}
-		// the walk: current = Get(current.Parent()) while current.View() > target.View()
-		step := false
-		eachInstr(ext, func(in ssa.Instruction) {
-			call, isCall := in.(*ssa.Call)
-			if !isCall || !calleeIs(&call.Call, p.Method("security/blockchain", "Blockchain", "Get")) {
-				return
-			}
-			if strings.HasPrefix(fl.K.Key(call.Call.Args[1]), kBlockParent+"phi@") {
-				facts := fl.At(in)
-				if hasCmp(facts, "<", is(kBlockView+"p2)"), func(k string) bool { return strings.HasPrefix(k, kBlockView+"phi@") }) {
-					step = true
-				}
+		if calleeIs(&call.Call, get) {
+			return true
+		}
+		_, isParam := call.Call.Value.(*ssa.Parameter)
+		return isParam && call.Call.StaticCallee() == nil && !call.Call.IsInvoke()
+	}
+	for _, hf := range helperClosure(p, ext, 2) {
+		if funcPkgPath(hf) != funcPkgPath(ext) || hf == get {
+			continue
+		}
+		has := false
+		eachInstr(hf, func(in ssa.Instruction) {
+			if isStep(hf, in) && inLoop(in.Block()) {
+				has = true
 			}
 		})
-		c.Check(ok && step, "C13.6", "Extends: descends by parent hash while the view is higher, answers by hash equality", p.FuncPos(ext),
-			"true is returned only under current.Hash() == target.Hash(); the walk follows Get(current.Parent()) only under target.View() < current.View()",
-			"hash-equality on true results: "+boolStr(ok)+", guarded parent step: "+boolStr(step))
+		if has && walker == nil {
+			walker = hf
+		}
 	}
+	if walker == nil {
+		c.Undecided("C13.6", "Extends: descends by parent hash while the view is higher, answers by hash equality", p.FuncPos(ext), "no loop that looks up parent blocks found in Extends or its helpers")
+		return
+	}
+	if walker != ext {
+		for _, s := range callsIn(ext, false, func(cc *ssa.CallCommon) bool { return calleeIs(cc, walker) }) {
+			if call, ok := s.(*ssa.Call); ok {
+				via = call
+			}
+		}
+	}
+	// parameter roles in the walker: which parameter is Extends' target
+	targetKey := "p2"
+	if via != nil {
+		targetKey = ""
+		ek := NewKeyer(p, ext)
+		for i, a := range via.Call.Args {
+			if ek.Key(a) == "p2" {
+				targetKey = "p" + itoa(i)
+			}
+			// View(target) passed as a value
+			if ek.Key(a) == kBlockView+"p2)" {
+				targetKey = "view:p" + itoa(i)
+			}
+		}
+	}
+	wfl := NewFlow(p, walker)
+	viewOfTarget := func(k string) bool {
+		if strings.HasPrefix(targetKey, "view:") {
+			return k == targetKey[5:]
+		}
+		return k == kBlockView+targetKey+")"
+	}
+	// (1) the step
+	step, getOK := false, true
+	eachInstr(walker, func(in ssa.Instruction) {
+		if !isStep(walker, in) {
+			return
+		}
+		call := in.(*ssa.Call)
+		arg := call.Call.Args[len(call.Call.Args)-1]
+		if !strings.HasPrefix(wfl.K.Key(arg), kBlockParent) {
+			return
+		}
+		if hasCmp(wfl.At(in), "<", viewOfTarget, func(k string) bool { return strings.HasPrefix(k, kBlockView) }) {
+			step = true
+		}
+		// a look-up through a function parameter: Extends binds it to chain.Get
+		if prm, isParam := call.Call.Value.(*ssa.Parameter); isParam {
+			getOK = false
+			if via != nil {
+				for i, q := range walker.Params {
+					if q == prm && i < len(via.Call.Args) {
+						if f := funcOfValue(via.Call.Args[i]); f != nil && (f == get || strings.HasPrefix(f.Name(), "Get$bound") && f.Synthetic != "") {
+							getOK = true
+						}
+					}
+				}
+			}
+		}
+	})
+	// (2) true only under hash equality with the target
+	ok := true
+	efl := NewFlow(p, ext)
+	ways := trueEdges(efl)
+	if len(ways) == 0 {
+		ok = false
+	}
+	for _, w := range ways {
+		if !hasCmp(w, "==", func(k string) bool { return strings.HasPrefix(k, kBlockHash) && k != kBlockHash+"p2)" }, is(kBlockHash+"p2)")) {
+			ok = false
+		}
+	}
+	c.Check(ok && step && getOK, "C13.6", "Extends: descends by parent hash while the view is higher, answers by hash equality", p.FuncPos(ext),
+		"true is returned only under current.Hash() == target.Hash(); the walk follows Get(current.Parent()) only under target.View() < current.View()",
+		"hash-equality on true results: "+boolStr(ok)+", guarded parent step: "+boolStr(step)+", look-up is Blockchain.Get: "+boolStr(getOK))
 }
 
 // c13Senders: every production implementation of core.Sender.RequestBlock returns only
